@@ -262,7 +262,8 @@ fn gen_ttl(rng: &mut Rng, heavy: bool) -> TtlSpec {
         0 => TtlSpec::None,
         1 => TtlSpec::Forever,
         2 => TtlSpec::Ephemeral,
-        3 => TtlSpec::Time(*rng.pick(&[1u64, 5, 50, 1000, 60_000])),
+        // (the last two: "practically forever" values at the edge of the millisecond arithmetic)
+        3 => TtlSpec::Time(*rng.pick(&[1u64, 5, 50, 1000, 60_000, 1000, 50, 1u64 << 63, u64::MAX])),
         _ => TtlSpec::Head(*rng.pick(&[1u32, 1, 2, 3, 50])),
     }
 }
@@ -356,7 +357,13 @@ pub fn generate(seed: u64, cfg: &GenCfg) -> Plan {
         };
         let op = match k {
             0 => Op::Append {
-                topic: topic(&mut rng),
+                topic: if cfg.prop == "C07" && rng.chance(12) {
+                    rng.pick(&["xs.contexts", "xs.context.note", "xs.context\u{1}"]).to_string()
+                } else if (cfg.prop == "C05" || cfg.prop == "C01") && rng.chance(1) {
+                    "<long:65503>".to_string()
+                } else {
+                    topic(&mut rng)
+                },
                 ctx: gen_ctx(&mut rng, cfg.bad_ctx),
                 ttl: gen_ttl(&mut rng, ttl_heavy),
                 meta: meta(&mut rng),
@@ -479,6 +486,9 @@ pub struct Exec {
     /// C05 is about the lookups agreeing with one another: at a settle point the store-vs-store
     /// comparison is evaluated before any model verdict is returned
     pub agree_first: bool,
+    /// ids of frames that look like registrations but are none (topic only starts with
+    /// `xs.context`, or the frame is not in the zero context): never usable as a context
+    pub suspects: Vec<Scru128Id>,
     settles: u32,
     deferred: Option<crate::world::Violation>,
     pub crashed_pairs: HashSet<(Scru128Id, String)>,
@@ -512,6 +522,7 @@ impl Exec {
             flushed: false,
             clock_high: 0,
             agree_first: false,
+            suspects: Vec::new(),
             settles: 0,
             deferred: None,
             crashed_pairs: HashSet::new(),
@@ -660,6 +671,8 @@ impl Exec {
                         ("append/accepted-regctx", "xs.context outside the zero context")
                     } else if self.model.usable(&ctx) == Tri::Absent {
                         ("append/accepted-unregistered", "unregistered context")
+                    } else if topic.len() > 65535 - 33 {
+                        ("append/accepted-oversize", "topic does not fit the index key")
                     } else {
                         ("append/accepted-nul", "NUL byte in topic")
                     };
@@ -717,6 +730,10 @@ impl Exec {
         if matches!(f.ttl, Some(TTL::Time(_))) {
             self.time_frames.push(f.id);
         }
+        if f.topic.starts_with("xs.context") && !(f.topic == "xs.context" && f.context_id == ZERO_CONTEXT) && !self.suspects.contains(&f.id) {
+            self.suspects.push(f.id);
+            self.w.probe("ctx:lookalike-frame");
+        }
         self.issue(f.id);
         self.model.accept_append(f);
         self.accepted_log.push(f.clone());
@@ -743,6 +760,10 @@ impl Exec {
         }
         if matches!(f.ttl, Some(TTL::Time(_))) && !self.time_frames.contains(&f.id) {
             self.time_frames.push(f.id);
+        }
+        if f.topic.starts_with("xs.context") && !(f.topic == "xs.context" && f.context_id == ZERO_CONTEXT) && !self.suspects.contains(&f.id) {
+            self.suspects.push(f.id);
+            self.w.probe("ctx:lookalike-frame");
         }
         self.issue(f.id);
         self.model.accept_import(f);
@@ -824,6 +845,16 @@ impl Exec {
         match op {
             Op::Append { topic, ctx, ttl, meta, hash } => {
                 let c = self.ctx(ctx);
+                // "<long:N>": a topic of N bytes (the index key holds at most 65502 of them)
+                let expanded;
+                let topic: &str = match topic.strip_prefix("<long:").and_then(|t| t.strip_suffix('>')).and_then(|n| n.parse::<usize>().ok()) {
+                    Some(n) => {
+                        expanded = "t".repeat(n);
+                        self.w.probe("append:oversize-topic");
+                        &expanded
+                    }
+                    None => topic,
+                };
                 self.do_append(&what, topic, c, ttl.to_ttl(), meta_pool(*meta), hash_pool(*hash))?;
             }
             Op::Register { ctx, ttl } => {
@@ -860,6 +891,8 @@ impl Exec {
                     Some(k) if !self.reg.is_empty() => Scru128Id::from_u128(self.reg[k % self.reg.len()].to_u128() + 1),
                     // context ids are key prefixes: put some of them on a byte boundary (…ff,
                     // …ffff) so that the neighbouring id (adjacent_to) needs a carry
+                    // (the all-zero id is the zero context's own id)
+                    _ if salt % 32 == 7 => ZERO_CONTEXT,
                     _ => match salt % 4 {
                         0 => Scru128Id::from_u128(fresh_id(ts, *salt).to_u128() | 0xff),
                         1 => Scru128Id::from_u128(fresh_id(ts, *salt).to_u128() | 0xffff),
@@ -1176,6 +1209,11 @@ impl Exec {
         for k in 0..2 {
             v.push(self.ctx(&CtxRef::Unreg(k)));
         }
+        for s in self.suspects.clone() {
+            if !v.contains(&s) {
+                v.push(s);
+            }
+        }
         v.into_iter().map(|c| (c, self.model.usable(&c))).collect()
     }
 
@@ -1202,6 +1240,7 @@ impl Exec {
             let pairs: Vec<(Scru128Id, String)> = self.model.head_min_k.keys().cloned().collect();
             for p in pairs {
                 self.model.imported_after_head.insert(p.clone());
+                self.model.head_check_lost.insert(p.clone());
                 self.model.imported_into_head_pair.insert(p);
             }
             self.w.probe("layout:reopened-crash");
@@ -1353,7 +1392,7 @@ impl Exec {
             groups.entry((f.context_id, f.topic.clone())).or_default().push(f);
         }
         for (key, v) in &groups {
-            if self.model.imported_after_head.contains(key) {
+            if self.model.imported_after_head.contains(key) || self.model.head_check_lost.contains(key) {
                 continue;
             }
             let newest = v.last().unwrap();
